@@ -264,6 +264,17 @@ def col_key(a):
     return (str(a.dtype), tuple(tok(x) for x in cells(a)))
 
 
+def same_dtype(a, b):
+    """The same data type, whatever the byte order (a result in native order of a big-endian operand is the same type)."""
+    a, b = np.dtype(a), np.dtype(b)
+    if a == b:
+        return True
+    try:
+        return a.newbyteorder("=") == b.newbyteorder("=")
+    except Exception:
+        return False
+
+
 def dtype_name(a):
     a = np.asarray(a)
     if isinstance(a.dtype, np.dtypes.StringDType):
@@ -354,8 +365,8 @@ A = {
         "key": [None, "1970-01-01", "2020-02-29"],
     },
     "us": {
-        "quick": [None, "1970-01-01T00:00:00", "2020-02-29T23:59:59.999999"],
-        "thorough": [None, "1970-01-01T00:00:00", "2020-02-29T23:59:59.999999", "1969-12-31T23:59:59"],
+        "quick": [None, "1970-01-01T00:00:00", "2020-02-29T23:59:59.999999", "2020-02-29T08:00:00"],
+        "thorough": [None, "1970-01-01T00:00:00", "2020-02-29T23:59:59.999999", "1969-12-31T23:59:59", "2020-02-29T08:00:00"],
         "key": [None, "1970-01-01T00:00:00", "2020-02-29T23:59:59.999999"],
     },
     "obj": {"quick": [None, 1, 2, 3], "thorough": [None, 1, 2, 3], "key": [None, 1, 2]},
